@@ -69,7 +69,30 @@ func runC02(r *Report) {
 					}
 				}
 			}
-			r.Ob("R-C02-1", CallPos(w), deadline == "", "the bandwidth wait runs under the bridge's own context ("+originSummary(Arg(w, 0))+"), not one with a deadline: a limit only delays bytes", r.P.FuncName(f), "wait-without-deadline")
+			// a deadline-bounded attempt is fine when its failure is followed by a wait on the bridge's own
+			// context (an observation window that only warns)
+			retried := false
+			if deadline != "" {
+				hasDeadline := func(v ssa.Value) bool {
+					for _, rt := range Origins(v) {
+						if c, ok := rt.V.(*ssa.Call); ok && CalleeOf(c).Is("context:WithTimeout", "context:WithDeadline") {
+							return true
+						}
+						if e, ok := rt.V.(*ssa.Extract); ok {
+							if c, ok := e.Tuple.(*ssa.Call); ok && CalleeOf(c).Is("context:WithTimeout", "context:WithDeadline") {
+								return true
+							}
+						}
+					}
+					return false
+				}
+				for _, w2 := range Calls(f, false, "rate:Limiter.WaitN") {
+					if w2 != w && !hasDeadline(Arg(w2, 0)) && ErrFailed(w2.Block(), w) {
+						retried = true
+					}
+				}
+			}
+			r.Ob("R-C02-1", CallPos(w), deadline == "" || retried, "the bandwidth wait runs under the bridge's own context ("+originSummary(Arg(w, 0))+"), or a deadline-bounded attempt is retried on it when it fails: a limit only delays bytes", r.P.FuncName(f), "wait-without-deadline")
 			r.Ob("R-C02-1", CallPos(w), clamped, "the token amount waited for is clamped to the limiter's burst ("+originSummary(Arg(w, 1))+"): a read larger than the bucket is waited for in slices, never refused", r.P.FuncName(f), "wait-clamped-to-burst")
 		}
 	}
